@@ -17,3 +17,35 @@ package transport
 //@
 //@ func (*conn).handshake
 //@   private
+//@
+//@ func (*conn).Recv
+//@   before call:NewMessage#1 assert sz == sbe64(p.c, old(rpos(p.c))) && sz >= 0 && (p.maxrx <= 0 || sz <= p.maxrx) && rpos(p.c) == old(rpos(p.c)) + 8
+//@   ensures result1 == mangos.ErrTooLong ==> rpos(p.c) == old(rpos(p.c)) + 8 && allocbytes() == old(allocbytes())
+//@   ensures result1 == mangos.ErrTooLong ==> sbe64(p.c, old(rpos(p.c))) < 0 || (p.maxrx > 0 && sbe64(p.c, old(rpos(p.c))) > p.maxrx)
+//@   ensures isnil(result1) ==> result0 != nil && len(result0.Body) == sbe64(p.c, old(rpos(p.c))) && len(result0.Header) == 0
+//@   ensures isnil(result1) ==> from_stream(result0.Body, p.c, old(rpos(p.c)) + 8) && rpos(p.c) == old(rpos(p.c)) + 8 + len(result0.Body)
+//@
+//@ func (*conn).Send
+//@   before call:WriteTo#1 assert len(buff) == 3
+//@   before call:WriteTo#1 assert len(buff[0]) == 8
+//@   before call:WriteTo#1 assert be64(buff[0]) == len(msg.Header) + len(msg.Body)
+//@   before call:WriteTo#1 assert buff[1] == msg.Header && buff[2] == msg.Body
+//@
+//@ func (*connipc).Recv
+//@   before call:NewMessage#1 assert sz == sbe64(p.c, old(rpos(p.c)) + 1) && sz >= 0 && (p.maxrx <= 0 || sz <= p.maxrx) && rpos(p.c) == old(rpos(p.c)) + 9
+//@   ensures result1 == mangos.ErrTooLong ==> rpos(p.c) == old(rpos(p.c)) + 9 && allocbytes() == old(allocbytes())
+//@   ensures isnil(result1) ==> result0 != nil && len(result0.Body) == sbe64(p.c, old(rpos(p.c)) + 1) && len(result0.Header) == 0
+//@   ensures isnil(result1) ==> from_stream(result0.Body, p.c, old(rpos(p.c)) + 9) && rpos(p.c) == old(rpos(p.c)) + 9 + len(result0.Body)
+//@
+//@ func (*connipc).Send
+//@   before call:WriteTo#1 assert len(buff) == 3
+//@   before call:WriteTo#1 assert len(buff[0]) == 9 && buff[0][0] == 1
+//@   before call:WriteTo#1 assert be64(buff[0], 1) == len(msg.Header) + len(msg.Body)
+//@   before call:WriteTo#1 assert buff[1] == msg.Header && buff[2] == msg.Body
+//@
+//@ func (*conn).handshake
+//@   before call:Write#1 assert h.Zero == 0 && h.S == 83 && h.P == 80 && h.Version == 0 && h.Proto == p.proto.Self && h.Reserved == 0
+//@   ensures result != mangos.ErrClosed
+//@   ensures isnil(result) ==> stream_at(p.c, old(rpos(p.c))) == 0 && stream_at(p.c, old(rpos(p.c)) + 1) == 83 && stream_at(p.c, old(rpos(p.c)) + 2) == 80 && stream_at(p.c, old(rpos(p.c)) + 3) == 0
+//@   ensures isnil(result) ==> sbe16(p.c, old(rpos(p.c)) + 4) == p.proto.Peer && stream_at(p.c, old(rpos(p.c)) + 6) == 0 && stream_at(p.c, old(rpos(p.c)) + 7) == 0
+//@   ensures isnil(result) ==> rpos(p.c) == old(rpos(p.c)) + 8
